@@ -36,10 +36,10 @@ type probeBlock struct {
 func (p *probeBlock) Trigger() []byte { return p.trig }
 func (p *probeBlock) Open(parent ast.Node, reader text.Reader, pc parser.Context) (ast.Node, parser.State) {
 	c20Block = append(c20Block, p.id)
-	if !p.accept {
+	line, seg := reader.PeekLine()
+	if !p.accept || len(line) == 0 || line[0] != '@' {
 		return nil, parser.NoChildren
 	}
-	line, seg := reader.PeekLine()
 	n := seg.Len()
 	if len(line) > 0 && line[len(line)-1] == '\n' {
 		n--
@@ -72,7 +72,9 @@ func (p *probeInline) Parse(parent ast.Node, block text.Reader, pc parser.Contex
 type probePT struct{ id int }
 
 func (p *probePT) Transform(node *ast.Paragraph, reader text.Reader, pc parser.Context) {
-	c20PT = append(c20PT, p.id)
+	// identity and what the transformer sees: the number of lines left in the paragraph tells whether the
+	// built-in link-reference transformer (priority 100) has already run
+	c20PT = append(c20PT, p.id*10+node.Lines().Len())
 }
 
 type probeAT struct{ id int }
@@ -212,10 +214,15 @@ func H_c20_block() {
 	}
 	m := build(popts, nil, perm(n, vp.ParamInt("order", 0)), vp.ParamInt("route", 0))
 	c20Block = nil
+	// doc 0: the probes' line opens the document; doc 1: it follows a paragraph line (only parsers that can
+	// interrupt a paragraph are tried — the probes can, the built-in paragraph parser cannot); doc 2: the same
+	// inside a block quote
+	docs := []string{"@x\n", "a\n@x\n", "> a\n> @x\n"}
+	dv := vp.ParamInt("doc", 0)
 	var o bytes.Buffer
-	e := m.Convert([]byte("@x\n"), &o)
+	e := m.Convert([]byte(docs[dv]), &o)
 	vp.Assert(e == nil, "conversion returned an error")
-	// model
+	// model: line by line, as the property states it
 	var trigIDs, freeIDs []int
 	for i := 0; i < n; i++ {
 		if i < nt {
@@ -224,23 +231,52 @@ func H_c20_block() {
 			freeIDs = append(freeIDs, i)
 		}
 	}
+	trigSorted, freeSorted := sortedBy(trigIDs, pr), sortedBy(freeIDs, pr)
 	var want []int
-	done := false
-	for _, id := range sortedBy(trigIDs, pr) {
-		if !done {
-			want = append(want, id)
-			done = id == acc
-		}
+	lines := []byte{'@'}
+	if dv > 0 {
+		lines = []byte{'a', '@'}
 	}
-	for _, id := range sortedBy(freeIDs, pr) {
-		if !done && pr[id] < 1000 { // behind the paragraph parser nothing is tried: it accepts every line
+	paraOpen := false
+	accepted := false
+	for _, first := range lines {
+		opened := false
+		// parsers on the line's first byte, then the trigger-less ones; a byte nobody triggers on sees only the latter
+		var list []int
+		if first == '@' && nt > 0 {
+			list = append(list, trigSorted...)
+		}
+		// the built-in paragraph parser sits at 1000 among the trigger-less parsers
+		paraPlaced := false
+		for _, id := range freeSorted {
+			if !paraPlaced && pr[id] > 1000 {
+				list = append(list, -1)
+				paraPlaced = true
+			}
+			list = append(list, id)
+		}
+		if !paraPlaced {
+			list = append(list, -1)
+		}
+		for _, id := range list {
+			if opened {
+				break
+			}
+			if id == -1 {
+				if !paraOpen { // cannot interrupt a paragraph; otherwise accepts every line
+					opened, paraOpen = true, true
+				}
+				continue
+			}
 			want = append(want, id)
-			done = id == acc
+			if id == acc && first == '@' {
+				opened, paraOpen, accepted = true, false, true
+			}
 		}
 	}
 	vp.Assert(eqInts(c20Block, want), "block parsers were not tried in ascending priority (triggered first, then trigger-less) up to the first acceptor")
-	if acc >= 0 && done {
-		vp.Assert(bytes.Contains(o.Bytes(), []byte{'<', 'p', '>'}) == false, "a paragraph was opened although a probe accepted the line first")
+	if accepted {
+		vp.Assert(!bytes.Contains(o.Bytes(), []byte("@x")), "the accepting probe's line was rendered as text")
 	}
 	vp.Reach("done")
 }
@@ -289,16 +325,28 @@ func H_c20_transformers() {
 	for i := 0; i < n; i++ {
 		popts = append(popts, parser.WithASTTransformers(util.Prioritized(&probeAT{id: i}, pa[i])))
 	}
+	for i := 0; i < n; i++ {
+		vp.Assume(pp[i] != 100) // the built-in link reference transformer's priority
+	}
 	m := build(popts, nil, perm(2*n, vp.ParamInt("order", 0)), vp.ParamInt("route", 0))
 	c20PT, c20AT = nil, nil
 	var o bytes.Buffer
-	e := m.Convert([]byte("a\n"), &o)
+	// a paragraph that starts with a link reference definition: the built-in transformer at 100 removes that line
+	e := m.Convert([]byte("[a]: /u\nx\n"), &o)
 	vp.Assert(e == nil, "conversion returned an error")
 	ids := make([]int, n)
 	for i := range ids {
 		ids[i] = i
 	}
-	vp.Assert(eqInts(c20PT, sortedBy(ids, pp)), "paragraph transformers did not run in ascending priority")
+	var wantPT []int
+	for _, id := range sortedBy(ids, pp) {
+		if pp[id] < 100 {
+			wantPT = append(wantPT, id*10+2)
+		} else {
+			wantPT = append(wantPT, id*10+1)
+		}
+	}
+	vp.Assert(eqInts(c20PT, wantPT), "paragraph transformers did not run in ascending priority (relative to each other and to the built-in one at 100)")
 	vp.Assert(eqInts(c20AT, sortedBy(ids, pa)), "AST transformers did not run in ascending priority")
 	vp.Reach("done")
 }
